@@ -135,6 +135,15 @@ def run(tier: str, seed: int) -> Report:
                 "inject an alive check / foreign diagnostic message / unknown payload type / foreign ack, and may delay or "
                 "withhold the answer; enumerated up to the choice depth; non-trivial = at least one disturbance")
     rep.assumptions = ["growth item (DESIGN section 5), not a listed property; ground truth = the virtual ECU's own answer"]
+    # the composed TLA+ model: end-to-end invariants, and the two reachable "design facts" as witnesses
+    for c, want in (("nolate", None), ("late_abc", None), ("late_aba", None),
+                    ("stale_mismatch", "NoStaleMismatch"), ("stale_accept", "NoStaleAccept")):
+        res = tlc.run_tlc("MC_System", f"MC_System_{c}.cfg", workers=2, timeout=600)
+        rep.add_tlc(res, f"MC_System_{c}" + (" (witness: a late answer hits the next request)" if want else ""))
+        if res.violated != want:
+            if want:
+                raise Machinery(f"System.tla: witness config {c} did not violate {want} (got {res.violated})")
+            rep.violate(f"design/{res.violated}", {"layer": "System.tla", "cfg": c}, {"cex": res.cex[-6:]})
     traces: list[dict[str, Any]] = []
     depth = 6 if tier == "quick" else 9
     for vseed in ((1, 2) if tier == "quick" else (1, 2, 3, 4, 5)):
